@@ -140,7 +140,9 @@ class KeyMap:
         # Key series now contains row_number: hash for each row in the dataframe
 
         # Add a column containing the mapped index for each row
-        map_series = pd.Series(self.map_dict)  # map_series is hash:row_index for each entry in the map_dict index
+        # map_series is hash:row_index for each entry in the map_dict index.  Pass the keys as an explicit index:
+        # pd.Series(dict) tries to turn two large integer keys into a RangeIndex, which can overflow and fail.
+        map_series = pd.Series(list(self.map_dict.values()), index=list(self.map_dict.keys()))
         key_values = key_series.map(map_series)  # key_values is df_row_number:map_dict_index
         # e.g. a key_value entry of 0:79 means row 0 maps to row 79 in the map_dict
 
